@@ -64,6 +64,65 @@ theorem mostDerived_is_last (defs : List (String × α)) (n : String) (x : α)
   subst this
   exact ⟨(m, x), hf, rfl⟩
 
+/-- every block name defined anywhere in the hierarchy is enforced through exactly one definition:
+    it appears once among the most-derived blocks -/
+theorem mostDerived_complete (defs : List (String × α)) (n : String) (h : n ∈ defs.map (·.1)) :
+    ∃ x, (n, x) ∈ mostDerived defs := by
+  simp only [mostDerived, List.mem_filterMap]
+  obtain ⟨d, hd, rfl⟩ := List.mem_map.1 h
+  cases hf : defs.reverse.find? (fun e => e.1 == d.1) with
+  | none =>
+    have := List.find?_eq_none.1 hf d (List.mem_reverse.2 hd)
+    simp at this
+  | some e =>
+    have hk := List.find?_some hf
+    simp only [beq_iff_eq] at hk
+    refine ⟨e.2, d.1, List.mem_eraseDups.2 h, ?_⟩
+    rw [hf]
+    congr 1
+    exact Prod.ext hk rfl
+
+theorem nodup_eraseDups (l : List String) : l.eraseDups.Nodup := by
+  generalize hn : l.length = n
+  induction n using Nat.strongRecOn generalizing l with
+  | _ n ih =>
+    cases l with
+    | nil => simp
+    | cons a as =>
+      rw [List.eraseDups_cons, List.nodup_cons]
+      refine ⟨fun hm => ?_, ih _ ?_ _ rfl⟩
+      · have := List.mem_eraseDups.1 hm
+        simp at this
+      · have := List.length_filter_le (fun b => !b == a) as
+        simp at hn; omega
+
+theorem mostDerived_names_nodup (defs : List (String × α)) : ((mostDerived defs).map (·.1)).Nodup := by
+  simp only [mostDerived]
+  have hnd : (defs.map (·.1)).eraseDups.Nodup := nodup_eraseDups _
+  have key : ∀ (names : List String), names.Nodup →
+      ((names.filterMap fun n => defs.reverse.find? (fun d => d.1 == n)).map (·.1)).Nodup ∧
+      ∀ m ∈ (names.filterMap fun n => defs.reverse.find? (fun d => d.1 == n)).map (·.1), m ∈ names := by
+    intro names
+    induction names with
+    | nil => intro _; simp
+    | cons n ns ih =>
+      intro hn
+      rw [List.nodup_cons] at hn
+      obtain ⟨i1, i2⟩ := ih hn.2
+      cases hf : defs.reverse.find? (fun d => d.1 == n) with
+      | none =>
+        simp only [List.filterMap_cons, hf]
+        exact ⟨i1, fun m hm => List.mem_cons_of_mem _ (i2 m hm)⟩
+      | some e =>
+        have hk := List.find?_some hf
+        simp only [beq_iff_eq] at hk
+        simp only [List.filterMap_cons, hf, List.map_cons, List.nodup_cons]
+        refine ⟨⟨fun hm => hn.1 (hk ▸ i2 _ hm), i1⟩, fun m hm => ?_⟩
+        rcases List.mem_cons.1 hm with rfl | hm
+        · rw [hk]; exact List.mem_cons_self ..
+        · exact List.mem_cons_of_mem _ (i2 m hm)
+  exact (key _ hnd).1
+
 example : (mostDerived [("c0", 1), ("c1", 2), ("c0", 3)]) = [("c0", 3), ("c1", 2)] := by decide
 example : enabled [(1, "c0", false), (2, "c0", true), (1, "c0", true), (1, "c0", false)] 1 "c0" = false := by decide
 example : enabled [(1, "c0", false)] 2 "c0" = true := by decide
